@@ -21,6 +21,8 @@ def detuple(v):
     if isinstance(v, list):
         return tuple(detuple(x) for x in v)
     if isinstance(v, dict):
+        if set(v) == {'__list__'}:
+            return [detuple(x) for x in v['__list__']]      # a value that is to reach the constructor as a LIST
         return {k: detuple(x) for k, x in v.items()}
     return v
 
